@@ -125,6 +125,7 @@ def tabulate_calendars(project: Any, sc: int, info: dict) -> None:
 
 
 def switch_clock(project: Any, sc: int, base: datetime) -> None:
+    IntTime.BASE = base
     a = project.attributes
     a["start"] = to_int(a["start"], base)
     a["end"] = to_int(a["end"], base)
